@@ -1112,7 +1112,7 @@ func main() {
 	if f := os.Getenv("VERIF_REPLAY"); f != "" {
 		os.Exit(replay(f))
 	}
-	r := ev.Start("C18", "exploration", 2*time.Minute, 20*time.Minute)
+	r := ev.Start("C18", "exploration", 4*time.Minute, 30*time.Minute)
 	x := &runner{r: r}
 
 	maxLen := ev.Pick(r, 4, 5)  // phase A: event list length
